@@ -120,7 +120,7 @@ func runBackup(in *mvInput, r *rand.Rand, n int, sink *CaseSink, replay bool) {
 		sink.Fail(idx, bad, sig, in)
 	}
 	// ---- continue on the restored instance --------------------------------------------------
-	if lerr == nil && !replay {
+	if lerr == nil && !replay && bad == "" {
 		r2 := e2.ref
 		for i, it := range loaded {
 			r2.vers = append(r2.vers, &refVer{item: it, born: 0})
@@ -150,7 +150,10 @@ func runBackup(in *mvInput, r *rand.Rand, n int, sink *CaseSink, replay bool) {
 		}
 	}
 	e.finish()
-	e2.finish()
+	if bad == "" {
+		// a wrongly restored instance is not driven any further (its reference state is meaningless)
+		e2.finish()
+	}
 	for _, x := range []*mvExec{e, e2} {
 		if len(x.bad) > 0 {
 			sink.Fail(idx, x.bad[0], x.sig, in)
